@@ -288,6 +288,13 @@ func (vc *VC) applyContract(f *Frame, n *Node, in ssa.Instruction, fn *ssa.Funct
 	for _, e := range fc.Ensures {
 		post.assumeClause(n.Reach, e.E)
 	}
+	// a *bytes.Buffer handed to the callee as a writer never fails
+	for _, a := range args {
+		if a.T != nil && isInterface(a.T) && a.Exact && len(a.Cands) == 1 && a.Cands[0].String() == "*bytes.Buffer" {
+			vc.note(aBuffer)
+			vc.assume(implies(n.Reach, not(sel(st.H["Wfail"], a.C[1]))))
+		}
+	}
 	vc.note("callee contract used: " + fc.Pkg + "::" + fc.Key)
 	vc.eng.noteContractUse(fc)
 	return vc.resultOf(sig, results)
